@@ -26,11 +26,7 @@ impl GraphIndex {
     }
 
     pub fn as_u64(&self) -> u64 {
-        if self.is_edge() {
-            (-self.0) as u64
-        } else {
-            self.0 as u64
-        }
+        self.0.unsigned_abs()
     }
 }
 
@@ -599,6 +595,14 @@ where
         self.data.commit(storage, id)?;
 
         Ok(index)
+    }
+
+    /// Returns `true` if the `index` is within the current capacity of
+    /// the graph, i.e. it can possibly refer to an element. The index may
+    /// come from damaged data so it must be checked before it is used
+    /// to size any in-memory structure.
+    pub fn is_in_range(&self, index: GraphIndex) -> bool {
+        index.as_u64() < self.data.capacity().unwrap_or_default()
     }
 
     pub fn iter<'a>(&'a self, storage: &'a Storage<D>) -> GraphIterator<'a, D, Data> {
